@@ -147,7 +147,27 @@ def model(prog, fn, mode, binding=None, prefix=(), depth=0, in_loop=False, impl_
                     ea = s.at(b).operand(a)
                 except Exception:
                     continue
-                for node in sym.walk(ea):
+                def closures_handed_over(x):
+                    # the closure has to be the argument itself (possibly behind a borrow / wrapper aggregate), not something
+                    # buried in the provenance of another call's result that merely flows through this call (`?` on the
+                    # value try_for_each returned would otherwise replay the closure's reads)
+                    if not isinstance(x, tuple) or not x:
+                        return
+                    if x[0] == "call":
+                        return
+                    if x[0] == "agg" and isinstance(x[1], str) and x[1].startswith("closure:"):
+                        yield x
+                        return
+                    for y in x[1:]:
+                        if isinstance(y, tuple):
+                            if y and isinstance(y[0], str):
+                                for z in closures_handed_over(y):
+                                    yield z
+                            else:
+                                for w in y:
+                                    for z in closures_handed_over(w):
+                                        yield z
+                for node in closures_handed_over(ea):
                     if node[0] == "agg" and isinstance(node[1], str) and node[1].startswith("closure:"):
                         cid = node[1][len("closure:"):]
                         cf = prog.fns.get(cid)
